@@ -329,7 +329,7 @@ PROPS["C18"] = {
     "module": "GstProofs.Props.C18",
     "theorems": [
         "GstProofs.C18.rotation_roundtrip", "GstProofs.C18.factors_roundtrip", "GstProofs.C18.factors_whitened",
-        "GstProofs.C18.rank_monotone", "GstProofs.C18.hermite_orthogonal_below_12", "GstProofs.C03.rotation_preserves_norm",
+        "GstProofs.C18.rank_monotone", "GstProofs.C18.hermite_orthogonal_below_12",
     ],
     "harnesses": ["vh_c18"],
     "level": "proof",
